@@ -517,6 +517,12 @@ def image_ops(kids, rng, dirc=False, path="@IMG@", nreads=3, dev="dd"):
                 off = rng.choice([0, 1, 487, 488, 511, 512, sz // 2, max(0, sz - 1), sz, sz + 5, 72 * 488, 72 * 512]) if rng.random() < 0.6 else rng.randrange(0, sz + 2)
                 ln = rng.choice([0, 1, 488, 512, 1000, sz]) if rng.random() < 0.6 else rng.randrange(0, sz + 10)
                 ops += [f"seek 1 {off}", f"read 1 {ln}"]
+            dbs_ = 512 if sz and len(getattr(node, 'datablocks', [])) and (sz + 511) // 512 == len(node.datablocks) and (sz + 487) // 488 != len(node.datablocks) else 488
+            if len(getattr(node, 'datablocks', [])) > 72:
+                nb = len(node.datablocks)
+                for k in (72, 73, rng.randrange(72, nb), nb - 1):
+                    ops += [f"seek 1 {k * dbs_}", "read 1 10"]
+                ops += [f"seek 1 {sz}", "read 1 1"]
             ops += ["stat 1", "close 1"]
         elif node.kind == 'dir':
             ops += nav + [f"chdir 0 0 {hx(p[-1])}", "list 0 0 0", "parent 0 0"]
